@@ -3,5 +3,6 @@ pub mod c02;
 pub mod c04;
 pub mod c05;
 pub mod c06;
+pub mod c16;
 pub mod c20;
 pub mod wscheck;
